@@ -36,7 +36,11 @@ def _mkrepo(d, packed):
     r.object_store.add_object(Blob.from_string(b"garbage\n"))
     if packed:
         r.object_store.pack_loose_objects()
+        r.refs[b"refs/heads/side"] = ids[1]
         r.refs.pack_refs(all=True)
+        # refs/heads/side: a loose value shadowing an older packed one (the state in which the order of the two removals
+        # of a deletion matters)
+        r.refs[b"refs/heads/side"] = ids[0]
     return r, ids
 
 
